@@ -93,6 +93,25 @@ theorem declared_method_count {name : Str} {ops : List DeclOp} {c : Cached} (h :
   obtain ⟨ins, outs, hi, ho, hn, hr⟩ := (declare_wf h).1.methods m hm
   exact ⟨ins, outs, hi.1, ho.1, hn, hr⟩
 
+/-- **C15, proxy, spec side.**  A method left in an interface declared through the API carries the type lists
+it was declared with, and a proxy holding that interface sends a call to it iff the number of arguments is the
+number of declared input types (one argument per complete type: an `a{sv}` is one) - with the declared
+signatures; any other count is the `TypeError`. -/
+theorem declared_method_accepts {name : Str} {ops : List DeclOp} {c : Cached} (h : declare name ops = .ok c)
+    {m : Method} (hm : m ∈ c.iface.methods) :
+    ∃ ins outs : List Ty, m.sigIn = renderAll ins ∧ m.sigOut = renderAll outs ∧
+      ∀ k : Nat, callCheck [c.iface] none m.name k =
+        if k = ins.length then .sent c.iface.name (renderAll ins) (renderAll outs) else .wrongCount := by
+  obtain ⟨ins, outs, hi, ho, hn, _⟩ := declare_ty h m hm
+  refine ⟨ins, outs, hi, ho, fun k => ?_⟩
+  have hg := dget_of_mem (declare_wf h).1.mnames hm
+  simp only [callCheck, findMethod, hg, Bool.false_eq_true, if_false]
+  rw [hn, hi, ho]
+  by_cases hk : k = ins.length
+  · simp [hk]
+  · have : (k : Int) ≠ (ins.length : Int) := by omega
+    simp [hk, this]
+
 /-- **C15, cache.**  "Interfaces already known locally are reused unless replacement is requested": for the
 `j`-th interface `d` of the object (distinct names),
 * no replacement and `d.name` known as object `k`: the `j`-th returned object *is* `k`, the cache entry stays;
@@ -173,6 +192,51 @@ theorem members_sorted (i : Interface) :
   simp only [sortedValues_names]
   exact ⟨sortStrs_sorted _, sortStrs_sorted _, sortStrs_sorted _⟩
 
+/-! ## outside the assumptions: a declared interface named like a standard one (pinned, not judged) -/
+
+/-- an exporter implementing `org.freedesktop.DBus.ObjectManager` itself, with the two signals of the DBus
+specification -/
+def omOps : List DeclOp :=
+  [ .addMethod "GetManagedObjects".toList []
+      [.array (.dict (.basic .o) (.array (.dict (.basic .s) (.array (.dict (.basic .s) .variant)))))],
+    .addSignal "InterfacesAdded".toList
+      [.basic .o, .array (.dict (.basic .s) (.array (.dict (.basic .s) .variant)))],
+    .addSignal "InterfacesRemoved".toList [.basic .o, .array (.basic .s)] ]
+
+def omName : Str := "org.freedesktop.DBus.ObjectManager".toList
+
+def omExported : List (Str × List Cached) :=
+  match declare omName omOps with
+  | .ok c => [("/a".toList, [c])]
+  | .error _ => []
+
+/-- per returned interface its name and number of signals; and the number of signals of the definition the
+cache holds for `omName` afterwards (99 = no entry) -/
+def omSummary (replace : Bool) : List (Str × Nat) × Nat :=
+  match generate "/a".toList omExported with
+  | .ok (some evs) =>
+    match getInterfaces [] [] replace evs with
+    | .ok st =>
+      ((st.result.filterMap id).map fun i => (i.name, i.signals.length),
+       match kget? st.known omName with
+       | some id => match st.heap[id]? with
+         | some i => i.signals.length
+         | none => 99
+       | none => 99)
+    | .error _ => ([], 99)
+  | _ => ([], 99)
+
+/-- **Witness (documented limitation, see ASSUMPTIONS).**  `generateIntrospectionXML` appends its own
+`ObjectManager` block even when the object declares that interface itself, so the name occurs twice.  The
+declared definition (2 signals) is returned first in both modes - the clauses of the statement hold for the
+returned list and a proxy resolves to it first - but with replacement requested the *cache* ends up with the
+poorer standard definition (0 signals); without replacement the second block is skipped as known. -/
+theorem std_name_collision_witness :
+    omSummary true = ([(omName, 2), ("org.freedesktop.DBus.Introspectable".toList, 0),
+                       ("org.freedesktop.DBus.Peer".toList, 0), (omName, 0)], 0) ∧
+    omSummary false = ([(omName, 2), ("org.freedesktop.DBus.Introspectable".toList, 0),
+                        ("org.freedesktop.DBus.Peer".toList, 0), (omName, 2)], 2) := by decide
+
 /-! ## the hypotheses are satisfiable; concrete evaluation of the models -/
 
 /-- a declared interface: containers, a dict entry, nested structs, all access modes, overwritten and deleted
@@ -239,9 +303,11 @@ example : ∃ i : Interface, i.ValidNames ∧ i.methods.length = 1 :=
 #print axioms handler_gen_fresh
 #print axioms proxy_accepts_same_calls
 #print axioms declared_method_count
+#print axioms declared_method_accepts
 #print axioms known_reused_unless_replaced
 #print axioms generated_attribute_values_need_no_escaping
 #print axioms xml_cache_coherent
 #print axioms members_sorted
+#print axioms std_name_collision_witness
 
 end Txdbus.Intro
